@@ -372,3 +372,15 @@ Proof.
   destruct (smtwtp_no_dead_end_before_done i (acts ++ [a]) Hwf E) as (s1 & _ & Hle & _).
   rewrite app_length in Hle. cbn [length] in Hle. apply Hiff in Hd. lia.
 Qed.
+
+(* a concrete FFSP batch: one row at reset, one finished row taking the wait action *)
+Example ffsp_b_step_example :
+  match run ex_i (reset ex_i) ex_acts with
+  | Some sd =>
+      done sd = true /\ nth 3 (mask sd) false = true /\
+      ffsp_b_step [ {| fr_i := ex_i; fr_s := reset ex_i; fr_a := 1 |}; {| fr_i := ex_i; fr_s := sd; fr_a := 3 |} ]
+      = Some [ match step ex_i (reset ex_i) 1 with Some x => x | None => sd end;
+               match step ex_i sd 3 with Some x => x | None => sd end ]
+  | None => False
+  end.
+Proof. vm_compute. repeat split; reflexivity. Qed.
